@@ -2,6 +2,7 @@ import Proofs.InvProps
 import Proofs.Hitzer5
 import Proofs.Blade
 import Proofs.LaInv
+import Proofs.Shirokov
 
 /-! # C05 — inverses, division and integer powers are true two-sided algebra inverses / powers
 
@@ -117,5 +118,36 @@ example : ∀ j, j < 2 ^ 1 → (Model.mulVec (Model.leftMat (2 ^ 1) (Model.const
   intro j hj
   have : j = 0 ∨ j = 1 := by omega
   rcases this with rfl | rfl <;> decide +kernel
+
+/-! ### the Shirokov recursion as coded (`_shirokov_inverse`), dimensions 1, 2, 3: after the loop `Uk` is a scalar, for every
+multivector and every signature (symbolic, zeros included), over any field of characteristic 0 (the divisions `N/k`). Hence the value
+returned, `adjU / Uk[0]`, is the two-sided inverse whenever `Uk[0]` is invertible, and the `ValueError` branch (`Uk[0] == 0`) is taken only
+for zero divisors. Dimensions ≥ 4 remain `shirokov_partial` (the expanded quartic / octic does not elaborate within the heartbeat limit). -/
+section Shirokov
+variable {K : Type} [Field K] [CharZero K]
+
+theorem shirokov_scalar_n1 (sig : Nat → K) (U : CMV 1 K) (c : Bm 1) (hc : c ≠ fzero) : (shLoop 1 sig U (2 ^ ((1 + 1) / 2))).1 c = 0 := shirokov1 sig U c hc
+theorem shirokov_scalar_n2 (sig : Nat → K) (U : CMV 2 K) (c : Bm 2) (hc : c ≠ fzero) : (shLoop 2 sig U (2 ^ ((2 + 1) / 2))).1 c = 0 := shirokov2 sig U c hc
+theorem shirokov_scalar_n3 (sig : Nat → K) (U : CMV 3 K) (c : Bm 3) (hc : c ≠ fzero) : (shLoop 3 sig U (2 ^ ((3 + 1) / 2))).1 c = 0 := shirokov3 sig U c hc
+
+theorem shirokov_correct_n1 (sig : Nat → K) (M : Cl 1 sig) (dinv : K) (hd : (shLoop 1 sig M 2).1 fzero * dinv = 1) :
+    M * (dinv • (asCl (shLoop 1 sig M 2).2 : Cl 1 sig)) = 1 ∧ (dinv • (asCl (shLoop 1 sig M 2).2 : Cl 1 sig)) * M = 1 :=
+  closed_form_correct 1 sig M (asCl (shLoop 1 sig M 2).2) (fun c hc => shirokov1 sig M c hc) dinv hd
+theorem shirokov_correct_n2 (sig : Nat → K) (M : Cl 2 sig) (dinv : K) (hd : (shLoop 2 sig M 2).1 fzero * dinv = 1) :
+    M * (dinv • (asCl (shLoop 2 sig M 2).2 : Cl 2 sig)) = 1 ∧ (dinv • (asCl (shLoop 2 sig M 2).2 : Cl 2 sig)) * M = 1 :=
+  closed_form_correct 2 sig M (asCl (shLoop 2 sig M 2).2) (fun c hc => shirokov2 sig M c hc) dinv hd
+theorem shirokov_correct_n3 (sig : Nat → K) (M : Cl 3 sig) (dinv : K) (hd : (shLoop 3 sig M 4).1 fzero * dinv = 1) :
+    M * (dinv • (asCl (shLoop 3 sig M 4).2 : Cl 3 sig)) = 1 ∧ (dinv • (asCl (shLoop 3 sig M 4).2 : Cl 3 sig)) * M = 1 :=
+  closed_form_correct 3 sig M (asCl (shLoop 3 sig M 4).2) (fun c hc => shirokov3 sig M c hc) dinv hd
+/-- the `ValueError` branch: `Uk[0] = 0` with `adjU ≠ 0` means `M` is a zero divisor -/
+theorem shirokov_singular_n3 (sig : Nat → K) (M : Cl 3 sig) (hd : (shLoop 3 sig M 4).1 fzero = 0)
+    (hnum : (asCl (shLoop 3 sig M 4).2 : Cl 3 sig) ≠ 0) : ¬ ∃ X : Cl 3 sig, X * M = 1 :=
+  hitzer_singular 3 sig M (asCl (shLoop 3 sig M 4).2) (fun c hc => shirokov3 sig M c hc) hd hnum
+/-- non-vacuity: in Cl(1) with `e² = 1`, `M = 2`: the loop ends with `Uk = −4`, `adjU = −2`, so the result is `1/2` -/
+example : (shLoop 1 (fun _ => (1 : ℚ)) (fun c => if c = fzero then 2 else 0) 2).1 fzero = -4 := by
+  simp +decide [shLoop, shStep, List.range', gmul, one, Finset.sum_fin_eq_sum_range, Finset.sum_range_succ, fxor, fzero, s, swaps, metric, sgn, bit,
+    Finset.prod_range_succ]
+  norm_num
+end Shirokov
 
 end C05
